@@ -278,6 +278,9 @@ class Judge:
         unknown_live = any(f[0] not in self.member for f, _ in live)
         if len(ops) < maxk:
             why = ";behind-an-operation-against-a-non-member" if unknown_live else ctxs
+            if not why and ops and self.inclusion_maximal(live, [tuple(o["f"]) for o in ops]):
+                # nothing can be added to what was returned, but a bigger combination exists
+                why = ";smaller-combination-earlier-in-bitmask-order"
             self.report(seen, "find:missed" + why, "Find(%d) returned %d operations, a valid combination of %d exists (pool %s)" % (
                 h, len(ops), maxk, sorted((fkey(f), sorted(s)) for f, s in live)), case)
         elif len(ops) < maxkall:
@@ -289,6 +292,26 @@ class Judge:
             g = self.groups.setdefault(gk, {})
             if rk not in g:
                 g[rk] = (idx, case, nbest)
+
+    def valid_combo(self, pool, R):
+        """ValidCombo of the specification over the live pool {fact tuple: signers}"""
+        targets = set(f[0] for f in R)
+        if not R or len(targets) != len(R):
+            return False
+        need = self.signth(len(R))
+        for f in R:
+            if f[0] not in self.member or f[0] == self.local or f not in pool:
+                return False
+            if len((pool[f] & self.member) - targets) < need:
+                return False
+        return True
+
+    def inclusion_maximal(self, live, R):
+        pool = dict((tuple(f), s) for f, s in live)
+        if not self.valid_combo(pool, R):
+            return False
+        clean = [f for f in pool if pool[f] <= self.member and f not in R]
+        return not any(self.valid_combo(pool, R + [g]) for g in clean)
 
     def order_independence(self):
         n = 0
